@@ -386,7 +386,11 @@ func generate(r *hx.Rand, cfg genCfg) []*item {
 		}
 		if cfg.stale && r.Chance(1, 12) {
 			stale := num - uint64(r.Intn(2))*50
-			push(&item{kind: "block", num: stale, evs: []*absEvent{g.event()}})
+			evs := []*absEvent{g.event()}
+			if r.Chance(1, 2) {
+				evs = nil // a stale block without logs (a duplicated progress marker)
+			}
+			push(&item{kind: "block", num: stale, evs: evs})
 			g.refresh()
 		}
 		num += 100
